@@ -176,6 +176,9 @@ pub struct GridCase {
     /// thresholds that depend on the number of lines or on the bytes per line)
     #[serde(default)]
     pub big: (u32, u32),
+    /// further operations applied, one after the other, to the same receiver
+    #[serde(default)]
+    pub more: Vec<GOp>,
 }
 impl GridCase {
     pub fn dims(&self) -> (usize, usize) {
@@ -680,21 +683,38 @@ fn project<K: Cell>(m: &Model) -> Model {
 fn run_t<K: Cell>(k: &GridCase, focus: Focus, ctx: &mut Ctx) -> Result<Outcome, Failure> {
     let lay = layout(k.dims().0, k.dims().1, &k.recv);
     let mut parent = build_parent::<K>(k, &lay);
-    let pm = parent_model(&parent);
+    let mut out = step_t::<K>(k, &k.op, 0, &mut parent, &lay, focus, ctx)?;
+    // further operations on the same receiver (each judged like the first; stops at a rejected one)
+    if out.valid && !k.more.is_empty() {
+        ctx.class("sequence-of-operations");
+        for (i, op) in k.more.iter().enumerate() {
+            let o = step_t::<K>(k, op, i + 1, &mut parent, &lay, focus, ctx)?;
+            if !o.valid {
+                break;
+            }
+            out.changed_inside |= o.changed_inside;
+        }
+    }
+    Ok(out)
+}
+
+fn step_t<K: Cell>(k: &GridCase, gop: &GOp, step: usize, parent: &mut TooDee<K>, lay: &Layout, focus: Focus, ctx: &mut Ctx) -> Result<Outcome, Failure> {
+    let lay = lay.clone();
+    let pm = parent_model(&*parent);
     let (c, r) = (lay.c, lay.r);
     let w = if c > 0 { pm.window(lay.o, (lay.o.0 + c, lay.o.1 + r)) } else { Model::new() };
-    let name = op_name(&k.op);
-    let exp = expect(&w, &k.op, k.keyseed);
-    let seed = k.keyseed;
-    let res = with_recv!(&mut parent, k.recv, lay, |x| {
+    let name = op_name(gop);
+    let exp = expect(&w, gop, k.keyseed.wrapping_add(step as u32 * 7919));
+    let seed = k.keyseed.wrapping_add(step as u32 * 7919);
+    let res = with_recv!(&mut *parent, k.recv, lay, |x| {
         if x.num_cols() != c || x.num_rows() != r {
             Err(format!("receiver has size ({},{}) instead of ({},{})", x.num_cols(), x.num_rows(), c, r))
         } else {
-            apply::<K, _>(x, &k.op, seed)
+            apply::<K, _>(x, gop, seed)
         }
     });
-    let after = parent_model(&parent);
-    let desc = || format!("{} {:?} on a {}x{} {:?} receiver (parent {}x{}, origin {:?})", name, k.op, c, r, k.recv.kind, lay.pc, lay.pr, lay.o);
+    let after = parent_model(&*parent);
+    let desc = || format!("{}{} {:?} on a {}x{} {:?} receiver (parent {}x{}, origin {:?})", if step > 0 { format!("[operation {} of a sequence] ", step + 1) } else { String::new() }, name, gop, c, r, k.recv.kind, lay.pc, lay.pr, lay.o);
     let mut out = Outcome { valid: true, changed_inside: false, had_tie: false, had_inversion: false };
     match exp {
         Expect::Reject => {
@@ -783,7 +803,7 @@ fn run_t<K: Cell>(k: &GridCase, focus: Focus, ctx: &mut Ctx) -> Result<Outcome, 
         }
     }
     // tie / inversion classification for sorts
-    if let GOp::Sort { form, line, keyfn } = &k.op {
+    if let GOp::Sort { form, line, keyfn } = gop {
         let by_row = *form % 11 < 6;
         let l = us(*line);
         let f = if matches!(*form % 11, 2 | 5 | 8) { 0 } else { *keyfn };
@@ -797,11 +817,11 @@ fn run_t<K: Cell>(k: &GridCase, focus: Focus, ctx: &mut Ctx) -> Result<Outcome, 
     if focus == Focus::ViewIsolation && k.recv.is_view() {
         let flat: Vec<K> = w.flat().into_iter().map(K::make).collect();
         let mut owned = TooDee::from_vec(c, r, flat);
-        let r2 = apply::<K, _>(&mut owned, &k.op, seed);
+        let r2 = apply::<K, _>(&mut owned, gop, seed);
         ensure!(matches!(r2, Ok(None)), "differential/owned-copy-failed", "{}: the same operation on an owned copy failed: {:?}", desc(), r2);
         let om = parent_model(&owned);
         let got_w = if c > 0 { after.window(lay.o, (lay.o.0 + c, lay.o.1 + r)) } else { Model::new() };
-        let unstable = matches!(&k.op, GOp::Sort { form, .. } if matches!(*form % 11, 3 | 4 | 5 | 9 | 10));
+        let unstable = matches!(gop, GOp::Sort { form, .. } if matches!(*form % 11, 3 | 4 | 5 | 9 | 10));
         if !(unstable && out.had_tie) {
             ensure!(om == got_w, format!("{}/differs-from-owned", name), "{}: inside the view the result is {:?} but the same operation on an owned copy gives {:?}", desc(), if c * r <= 400 { got_w.rows.clone() } else { vec![] }, if c * r <= 400 { om.rows.clone() } else { vec![] });
         }
@@ -982,7 +1002,7 @@ pub fn enum_wraps(cols: u8, rows: u8, recv: Recv, keep: &dyn Fn(&GOp) -> bool, e
         }
         for op in ops {
             if keep(&op) {
-                emit(GridCase { cell: CellKind::Kc, cols, rows, recv, keyseed: 77, alphabet: 3, line_keys: vec![], op, big: (0, 0) });
+                emit(GridCase { cell: CellKind::Kc, cols, rows, recv, keyseed: 77, alphabet: 3, line_keys: vec![], op, big: (0, 0), more: vec![] });
             }
         }
     }
@@ -1065,6 +1085,7 @@ pub fn sanitize(k: &mut GridCase, max: u8, views_only: bool) -> bool {
         *form %= 11;
     }
     k.big = (0, 0);
+    k.more.truncate(4);
     if k.cell == CellKind::Fat && !fat_ok(k) {
         k.cell = CellKind::K20;
     }
@@ -1072,7 +1093,7 @@ pub fn sanitize(k: &mut GridCase, max: u8, views_only: bool) -> bool {
 }
 
 fn case(cols: u8, rows: u8, recv: Recv, keyseed: u32, op: GOp) -> GridCase {
-    GridCase { cell: CellKind::Kc, cols, rows, recv, keyseed, alphabet: 4, line_keys: vec![], op, big: (0, 0) }
+    GridCase { cell: CellKind::Kc, cols, rows, recv, keyseed, alphabet: 4, line_keys: vec![], op, big: (0, 0), more: vec![] }
 }
 
 fn enum_recvs() -> Vec<Recv> {
@@ -1486,7 +1507,7 @@ fn sort_enumerate(by_row: bool, tier: Tier, emit: &mut dyn FnMut(GridCase)) {
                             if keyfn > 0 && other == 1 {
                                 continue;
                             }
-                            emit(GridCase { cell: CellKind::Kc, cols, rows, recv, keyseed: code as u32, alphabet: 3, line_keys: keys.clone(), op: GOp::Sort { form, line, keyfn }, big: (0, 0) });
+                            emit(GridCase { cell: CellKind::Kc, cols, rows, recv, keyseed: code as u32, alphabet: 3, line_keys: keys.clone(), op: GOp::Sort { form, line, keyfn }, big: (0, 0), more: vec![] });
                         }
                     }
                 }
@@ -1501,7 +1522,7 @@ fn sort_enumerate(by_row: bool, tier: Tier, emit: &mut dyn FnMut(GridCase)) {
                 let dim = if by_row { rows } else { cols } as u64;
                 for fi in 0..nforms {
                     for line in [dim, dim + 1, u64::MAX] {
-                        emit(GridCase { cell: CellKind::Kc, cols, rows, recv, keyseed: 5, alphabet: 3, line_keys: vec![], op: GOp::Sort { form: forms[fi], line, keyfn: 0 }, big: (0, 0) });
+                        emit(GridCase { cell: CellKind::Kc, cols, rows, recv, keyseed: 5, alphabet: 3, line_keys: vec![], op: GOp::Sort { form: forms[fi], line, keyfn: 0 }, big: (0, 0), more: vec![] });
                     }
                 }
                 enum_wraps(cols, rows, recv, &|op| matches!(op, GOp::Sort { form, .. } if (*form < 6) == by_row), emit);
@@ -1514,7 +1535,7 @@ fn sort_enumerate(by_row: bool, tier: Tier, emit: &mut dyn FnMut(GridCase)) {
             for fi in 0..nforms {
                 for (keyfn, keys) in [(0u8, vec![2u8, 0, 1, 1, 0, 2, 1]), (1, vec![0, 0, 1, 2, 2, 1, 0, 1, 2, 0, 0])] {
                     let (big, cols, rows) = if by_row { ((n, 0), 0u8, 2u8) } else { ((0, n), 2u8, 0u8) };
-                    emit(GridCase { cell: CellKind::Kc, cols, rows, recv, keyseed: 9, alphabet: 3, line_keys: keys, op: GOp::Sort { form: forms[fi], line: 1, keyfn }, big });
+                    emit(GridCase { cell: CellKind::Kc, cols, rows, recv, keyseed: 9, alphabet: 3, line_keys: keys, op: GOp::Sort { form: forms[fi], line: 1, keyfn }, big, more: vec![] });
                 }
             }
         }
@@ -1551,7 +1572,7 @@ fn sort_strategy(by_row: bool) -> BoxedStrategy<GridCase> {
                 6 => (0..n).map(|i| if i == 0 { (a - 1) as u8 } else { asc(i) }).collect(),
                 _ => vec![],
             };
-            GridCase { cell: CellKind::Kc, cols, rows, recv, keyseed, alphabet, line_keys, op: GOp::Sort { form, line, keyfn }, big: (0, 0) }
+            GridCase { cell: CellKind::Kc, cols, rows, recv, keyseed, alphabet, line_keys, op: GOp::Sort { form, line, keyfn }, big: (0, 0), more: vec![] }
         })
         .boxed();
     with_wraps(s)
@@ -1790,7 +1811,7 @@ impl Prop for C04 {
                         ops.push(GOp::Sort { form, line: 0, keyfn: 1 });
                     }
                     for op in ops {
-                        emit(GridCase { cell: CellKind::Kc, cols, rows, recv, keyseed: (cols as u32) * 16 + rows as u32, alphabet: 3, line_keys: vec![], op, big: (0, 0) });
+                        emit(GridCase { cell: CellKind::Kc, cols, rows, recv, keyseed: (cols as u32) * 16 + rows as u32, alphabet: 3, line_keys: vec![], op, big: (0, 0), more: vec![] });
                     }
                 }
             }
@@ -1813,7 +1834,7 @@ impl Prop for C04 {
                     (idx(ec), idx(er), any::<bool>()).prop_map(|(a, b, via)| GOp::IdxWrite(a, b, via)),
                     (idx(ec), any::<bool>(), 1u8..3, 0u8..3).prop_map(|(cc, rev, step, skip)| GOp::ColMutWrite { c: cc, rev, step, skip }),
                 ];
-                prop_oneof![9 => valid_op(ec, er), 1 => maybe_invalid.boxed()].prop_map(move |op| GridCase { cell: CellKind::Kc, cols, rows, recv, keyseed: seed, alphabet, line_keys: vec![], op, big: (0, 0) })
+                (prop_oneof![9 => valid_op(ec, er), 1 => maybe_invalid.boxed()], prop_oneof![3 => Just(vec![]).boxed(), 1 => prop::collection::vec(valid_op(ec, er), 1..4).boxed()]).prop_map(move |(op, more)| GridCase { cell: CellKind::Kc, cols, rows, recv, keyseed: seed, alphabet, line_keys: vec![], op, big: (0, 0), more })
             })
             .boxed();
         with_wraps(s)
@@ -1857,6 +1878,6 @@ impl Prop for C04 {
         Ok(())
     }
     fn essential_classes() -> &'static [&'static str] {
-        &["SliceMut", "window-interior", "window-touching-an-edge", "window-single-line", "window-empty", "Nested", "ThinView", "ViewMut", "copy_within", "rows_mut", "col_mut", "cells_mut", "sort_unstable_by_col_key", "translate_with_wrap", "swap_rows", "row_pair_mut"]
+        &["SliceMut", "window-interior", "window-touching-an-edge", "window-single-line", "window-empty", "Nested", "ThinView", "ViewMut", "copy_within", "rows_mut", "col_mut", "cells_mut", "sort_unstable_by_col_key", "translate_with_wrap", "swap_rows", "row_pair_mut", "sequence-of-operations"]
     }
 }
